@@ -39,6 +39,19 @@ PROPS = {
         not_claimed=["which lines are directives / malformed-directive recovery (lexer + generated parser)", "location preservation of surviving text (lexer cursor arithmetic is under C09's unit)",
                      "cross-file isolation is by ownership typing (symbols.clone() per file) - noted, no obligation"],
     ),
+    "C07": dict(
+        units=["diag_gate"],
+        claim="main() (real text, process-I/O regions replaced by contract-carrying stubs) starts generators iff the compilation produced no error "
+              "diagnostic and --dry-run is off, and returns a non-zero status iff an error diagnostic is emitted; Diagnostic::new establishes "
+              "level==Error <=> kind is Error; get_totals counts levels; compile_from_options parses nothing after a file error.",
+        trusted=["R12 regions of main(): clap parsing, encode_generate_code_request (C08), the generator spawn/collect/write region (C18), emit_diagnostics/emit_totals (C14)",
+                 "Diagnostics::has_errors (iterator adapter + closure): assumed `r <==> exists error kind`",
+                 "Diagnostics::into_updated (C13's logic): assumed FRAME only (same length and kinds; only lints change level, only to Allowed)",
+                 "CompilationState::apply / apply_unsafe (function-pointer parameters are not representable): the per-phase gating inside compile_files is NOT verified",
+                 "every Diagnostic reaching main was built by Diagnostic::new (only constructor; private fields) and builder methods do not touch kind/level (`mut self` receivers are not parseable)",
+                 "Vec::extend appends (shim_vec_extend); derived Default of Diagnostics is empty"],
+        not_claimed=["phase gating inside compile_files (apply/apply_unsafe)", "what happens inside the generator region (C18)", "exit status 79 path emits an error TEXT, not a diagnostic"],
+    ),
     "C20": dict(
         units=["visitor"],
         claim="All twelve visit_with implementations of slicec/src/visitor.rs (real text) are verified to present, to ANY visitor, exactly the "
@@ -102,6 +115,10 @@ NOT_APPLICABLE = {
 }
 
 MANIFEST_TEXT = {
+    "C07": dict(
+        level="Proof (Verus): on main()'s real control flow (I/O regions replaced by stubs whose PRECONDITION is the permission to run generators) - generators_ran <==> (no error diagnostic from compilation && !dry_run), exit status non-zero <==> an error diagnostic is emitted; the data-structure invariant level==Error <=> kind is Error is established by Diagnostic::new and is why the guard (kinds) and the status (level counts) agree (lemma). compile_from_options: compile_files only without file errors.",
+        design_ref="DESIGN.md section 7, C07", technique="Verus contracts + permission preconditions on anchored-region stubs (R12) + ghost flags + counting lemma",
+        note="A genuine defect (--dry-run ignored by main) was found by the permission precondition and repaired (fix: commit). Assumed: has_errors, into_updated frame, apply/apply_unsafe, clap, all process I/O."),
     "C20": dict(
         level="Proof (Verus, unbounded): the twelve visit_with functions of visitor.rs - the repository's text - are verified, for an arbitrary Visitor whose visit_x methods each record one event, to produce exactly old trace ++ tr_<kind>(element), where tr_* is the traversal order written from the property (containers before contents, source order, type right after owner, nested types to any depth, unpatched references not descended). Exactly-once / nothing-skipped / nothing-foreign is the definition of tr_* over the ownership fields.",
         design_ref="DESIGN.md section 7, C20", technique="Verus contracts with a ghost trace on the Visitor trait; loop invariants over prefixes; recursion by an assumed finite type-nesting measure",
